@@ -184,10 +184,38 @@ def build(case):
     if ogmd is not None:
         kw['observation_group_metadata'] = ogmd
         kw['sample_group_metadata'] = sgmd
-    t = rt.make_table(A, case.get('layout', 'csr'), case.get('zeros', 'nz'), ids=case.get('ids', 'plain'),
-                      obs_md=make_md(case.get('obs_md', 'none'), 'observation', m),
-                      samp_md=make_md(case.get('samp_md', 'none'), 'sample', n),
-                      type=case.get('type'), table_id=TABLE_IDS[case.get('table_id')], **kw)
+    if case.get('layout') == 'coo':
+        # caller-supplied COO matrix with duplicate coordinates: every non-zero cell is given as (v, 0.0), and,
+        # unless zeros == 'nz', the first / every zero cell as (+1, -1), which the constructor's tocsr() sums to
+        # an explicitly stored 0.0
+        from biom import Table
+        import scipy.sparse as sp
+        rows, cols, vals = [], [], []
+        first = True
+        for i in range(m):
+            for j in range(n):
+                v = A[i, j]
+                if v != 0:
+                    rows += [i, i]
+                    cols += [j, j]
+                    vals += [v, 0.0]
+                elif case.get('zeros', 'nz') == 'zall' or (case.get('zeros') == 'z1' and first):
+                    first = False
+                    rows += [i, i]
+                    cols += [j, j]
+                    vals += [1.0, -1.0]
+        mat = sp.coo_matrix((np.array(vals, dtype=float), (np.array(rows, dtype=int), np.array(cols, dtype=int))),
+                            shape=(m, n))
+        t = Table(mat, rt.make_ids(case.get('ids', 'plain'), 'observation', m),
+                  rt.make_ids(case.get('ids', 'plain'), 'sample', n),
+                  make_md(case.get('obs_md', 'none'), 'observation', m),
+                  make_md(case.get('samp_md', 'none'), 'sample', n),
+                  type=case.get('type'), table_id=TABLE_IDS[case.get('table_id')], **kw)
+    else:
+        t = rt.make_table(A, case.get('layout', 'csr'), case.get('zeros', 'nz'), ids=case.get('ids', 'plain'),
+                          obs_md=make_md(case.get('obs_md', 'none'), 'observation', m),
+                          samp_md=make_md(case.get('samp_md', 'none'), 'sample', n),
+                          type=case.get('type'), table_id=TABLE_IDS[case.get('table_id')], **kw)
     if case.get('history'):
         try:
             for op in case['history']:
@@ -205,6 +233,8 @@ def build(case):
 def wclass(case, tag=None):
     """witness class: rt.state_class(case) + the other state features present + an operation tag"""
     parts = [p for p in rt.state_class(case).split('+') if p != 'canonical']
+    if case.get('layout') == 'coo':
+        parts.insert(0, 'from-coo-duplicates')
     A = np.asarray(case['A'], dtype=float)
     if A.size and not np.any(A != 0):
         parts.append('all-zero')
@@ -261,6 +291,8 @@ def minimise(case, evaluate, clause, tag=None):
 
     def attempt(trial):
         try:
+            if getattr(evaluate, 'supports_until', False):
+                return same(evaluate(trial, until=(clause, tag)))    # may stop at the first such failure
             return same(evaluate(trial))
         except Exception:
             return None
@@ -327,6 +359,10 @@ def reduce_fails(case, raw, evaluate):
         out.append(rt.fail(f['clause'], wclass(red, f.get('tag')), rf.get('expected'), rf.get('observed'),
                            witness=red))
     return out
+
+
+class Found(Exception):
+    """raised inside an evaluate(case, until=(clause, tag)) run to stop at the first such failure"""
 
 
 def raw(clause, expected=None, observed=None, tag=None):
@@ -829,10 +865,13 @@ def base_states(tier, seed=0, values=(0, 1, 2), small_only=False):
                 if z == 'nz' or has_zero:
                     yield {'A': dm.tolist(), 'layout': lay, 'zeros': z}
     for dm in rt.stress_matrices():
-        for lay in rt.LAYOUTS:
+        for lay in rt.LAYOUTS + ('coo',):
             yield {'A': dm.tolist(), 'layout': lay, 'zeros': 'nz'}
             if np.any(dm == 0):
                 yield {'A': dm.tolist(), 'layout': lay, 'zeros': 'zall'}
+    # tables constructed from a COO matrix with duplicate coordinates (summed by the constructor)
+    for dm in rt.matrices(0, 0, values=values, shapes=[(1, 2), (2, 2)]):
+        yield {'A': dm.tolist(), 'layout': 'coo', 'zeros': rt.ZEROS[int(dm.sum()) % 3] if np.any(dm == 0) else 'nz'}
     rnd = random.Random(1000 + int(seed))
     shapes = [(2, 3), (3, 2), (3, 3)] if q else [(2, 3), (3, 2), (3, 3), (3, 4), (4, 3), (5, 6), (6, 6)]
     per = 8 if q else 80
